@@ -283,6 +283,33 @@ Proof.
   vm_compute. repeat split; try reflexivity; repeat constructor; try discriminate.
 Qed.
 
+(* (15) rung_increment: exactly the levels grace, grace + inc, grace + 2 inc, ... that lie below max_t, in
+   increasing order - none dropped, none added *)
+Theorem c03_increment_levels_exact :
+  forall grace incr max_t l,
+  sh_rung_levels None grace None (Some incr) max_t = Some l ->
+  StronglySorted Z.lt l /\
+  forall x, In x l <-> exists k, (0 <= k)%Z /\ x = (grace + k * incr)%Z /\ (x < max_t)%Z.
+Proof. exact increment_levels_exact. Qed.
+Print Assumptions c03_increment_levels_exact.
+
+(* (16) explicit rung_levels: grace_period, reduction_factor and rung_increment are ignored and the list is used as
+   given, except that a final entry equal to max_t (and nothing else) is stripped *)
+Theorem c03_explicit_levels_exact :
+  forall l0 grace rf incr max_t l,
+  sh_rung_levels (Some l0) grace rf incr max_t = Some l ->
+  l = (if (last l0 0 =? max_t)%Z then removelast l0 else l0) /\
+  sh_rung_levels (Some l0) 1 None None max_t = Some l.
+Proof. exact explicit_levels_exact. Qed.
+Print Assumptions c03_explicit_levels_exact.
+
+Example c03_example_levels :
+  sh_rung_levels None 2 None (Some 3%Z) 12 = Some [2; 5; 8; 11]%Z /\
+  sh_rung_levels None 2 None (Some 5%Z) 12 = Some [2; 7]%Z /\
+  sh_rung_levels (Some [3; 4; 12]%Z) 7 (Some (5 # 1)) (Some 9%Z) 12 = Some [3; 4]%Z /\
+  sh_rung_levels (Some [3; 4; 11]%Z) 1 None None 12 = Some [3; 4; 11]%Z.
+Proof. vm_compute. repeat split; reflexivity. Qed.
+
 (* non-vacuity for (12)-(14): three brackets over levels 1,3 (bracket 2 = top bracket); a tie at rung
    level 1; restore in the middle; an approximate cutoff *)
 Example c03_example_structure :
